@@ -103,6 +103,11 @@ def run(ctx):
         ctx.cov['traces_validated_against_impl'] += len(res)
         bad = [i for i, x in enumerate(res) if not x]
         if bad: ctx.broken.append(f'rank / null-rank model and implementation disagree on {len(bad)} of {len(res)} case(s), first: {rterms[bad[0]][:300]}')
+    _A, _, _ = spectral_problem(rng, 3, 4, [Fraction(3), Fraction(1), Fraction(0)]); _A = qx.to_np(_A)
+    cm.layout_sweep(ctx, qx, 'C11', 'rank', lambda X: utils.rank(X), _A, {'shape': [3, 4], 'rank': 2})
+    cm.layout_sweep(ctx, qx, 'C11', 'quat_null_space', lambda X: fro(utils.quat_matmat(X, utils.quat_null_space(X, 'right'))), _A, {'shape': [3, 4], 'rank': 2})
+    _S, _, _ = spectral_problem(rng, 3, 3, [Fraction(3), Fraction(2), Fraction(1)]); _S = qx.to_np(_S)
+    cm.layout_sweep(ctx, qx, 'C11', 'det(Dieudonne)', lambda X: utils.det(X, 'Dieudonne'), _S, {'shape': [3, 3]})
     ctx.cov['rule'] = (f'all shapes 1..{top} x 1..{top}, every rank 0..min(m,n), simple and repeated spectra (exact rational constructions), also scaled by 2^27 and 2^-40: rank, rank of A^H, quarter of the real rank, invariance under unitary / invertible factors, '
                        'null-space shapes, annihilation and independence; Dieudonne (product, zero iff singular, multiplicative) and Moore determinants; counting model on the recorded singular values. Discarded = singular value within 50% of a threshold.')
     return cm.finish(ctx, 'proof', '', ASSUME)
